@@ -12,15 +12,15 @@ import (
 	"net/url"
 	"os"
 	"runtime"
+	"strconv"
 	"strings"
 	"sync"
+	"sync/atomic"
 	"testing"
 	"time"
 
 	ct "github.com/google/certificate-transparency-go"
 	"github.com/google/certificate-transparency-go/trillian/ctfe/cache"
-	"github.com/google/certificate-transparency-go/trillian/ctfe/cache/lru"
-	"github.com/google/certificate-transparency-go/trillian/ctfe/cache/noop"
 	"github.com/google/certificate-transparency-go/trillian/ctfe/storage"
 	mysqlstore "github.com/google/certificate-transparency-go/trillian/ctfe/storage/mysql"
 	pgstore "github.com/google/certificate-transparency-go/trillian/ctfe/storage/postgresql"
@@ -188,13 +188,32 @@ func (s *sqlStore) arm(fault string, variant int, cancel func()) {
 	s.db.Arm(sqlfake.Fault{Kind: kind, On: on, Variant: variant, Cancel: cancel})
 }
 
+// reqTag is the context key under which the harness tags an HTTP request; the front end hands the request context to
+// the storage layer and to the cache, so both can tell which request a call belongs to.
+type reqTag struct{}
+
+var reqSeq int64
+
+func tagged(ctx context.Context) (context.Context, int64) {
+	id := atomic.AddInt64(&reqSeq, 1)
+	return context.WithValue(ctx, reqTag{}, id), id
+}
+
+func tagOf(ctx context.Context) int64 {
+	id, _ := ctx.Value(reqTag{}).(int64)
+	return id
+}
+
 // layerRec sits between the issuance chain service and the storage implementation and records what the storage
 // layer was asked and what it answered: the specification says, per step, whether the layer is called and whether
-// it answers with data / ok or with an error (reply.add / find / layer / layers).
+// it answers with data / ok or with an error (reply.add / find / layer / layers).  It is also where the latency of the
+// storage shows: delay (if set) says how long an answer is held back, per operation, key and outcome - the completion
+// order of the per-leaf work of a get-entries page (ChainStore.tla, Orders).
 type layerRec struct {
 	mu    sync.Mutex
 	inner storage.IssuanceChainStorage
 	calls []layerCall
+	delay func(op string, key []byte, err error) time.Duration
 }
 
 type layerCall struct {
@@ -202,6 +221,7 @@ type layerCall struct {
 	key  []byte
 	data []byte // add: the chain handed in; find: the bytes handed back
 	err  error
+	req  int64 // tag of the request the call was made for (0: none)
 }
 
 func (l *layerRec) cur() storage.IssuanceChainStorage {
@@ -210,22 +230,35 @@ func (l *layerRec) cur() storage.IssuanceChainStorage {
 	return l.inner
 }
 func (l *layerRec) set(s storage.IssuanceChainStorage) { l.mu.Lock(); l.inner = s; l.mu.Unlock() }
+func (l *layerRec) setDelay(f func(op string, key []byte, err error) time.Duration) {
+	l.mu.Lock()
+	l.delay = f
+	l.mu.Unlock()
+}
+
+func (l *layerRec) done(c layerCall) {
+	l.mu.Lock()
+	l.calls = append(l.calls, c)
+	d := l.delay
+	l.mu.Unlock()
+	if d != nil {
+		if w := d(c.op, c.key, c.err); w > 0 {
+			time.Sleep(w) // a latency, never a verdict: the laws hold for every completion order
+		}
+	}
+}
 
 // FindByKey implements storage.IssuanceChainStorage.
 func (l *layerRec) FindByKey(ctx context.Context, key []byte) ([]byte, error) {
 	data, err := l.cur().FindByKey(ctx, key)
-	l.mu.Lock()
-	l.calls = append(l.calls, layerCall{"find", append([]byte{}, key...), data, err})
-	l.mu.Unlock()
+	l.done(layerCall{"find", append([]byte{}, key...), data, err, tagOf(ctx)})
 	return data, err
 }
 
 // Add implements storage.IssuanceChainStorage.
 func (l *layerRec) Add(ctx context.Context, key []byte, chain []byte) error {
 	err := l.cur().Add(ctx, key, chain)
-	l.mu.Lock()
-	l.calls = append(l.calls, layerCall{"add", append([]byte{}, key...), append([]byte{}, chain...), err})
-	l.mu.Unlock()
+	l.done(layerCall{"add", append([]byte{}, key...), append([]byte{}, chain...), err, tagOf(ctx)})
 	return err
 }
 
@@ -242,42 +275,143 @@ func (l *layerRec) since(n int, op string) []layerCall {
 	return out
 }
 
+// justified tells whether the request with that tag got this chain into or out of the storage under this key: the
+// only thing that entitles it to tell the cache about the chain.
+func (l *layerRec) justified(req int64, key, chain []byte) bool {
+	l.mu.Lock()
+	defer l.mu.Unlock()
+	for _, c := range l.calls {
+		if c.req == req && c.err == nil && bytes.Equal(c.key, key) && bytes.Equal(c.data, chain) {
+			return true
+		}
+	}
+	return false
+}
+
 // GateCache wraps a real cache; Set (called from the detached goroutine) blocks until the harness fires it.
+// Every write that arrives is remembered and judged: the cache stands for "stored" (add() skips the storage when the
+// cache has the chain), so a write is sound only if the request that makes it got exactly this chain into or out of
+// the storage of this log under exactly this key.
 type GateCache struct {
-	real    cache.IssuanceChainCache
-	mu      sync.Mutex
-	tickets []*ticket
-	arrived chan struct{}
-	vouch   func(key, chain []byte) bool
+	real      cache.IssuanceChainCache
+	mu        sync.Mutex
+	tickets   []*ticket // waiting at the gate
+	seen      []*ticket // every write that ever arrived (waiting, landed inside its request, let through by the watchdog)
+	judged    int       // seen[:judged] have been judged
+	arrived   chan struct{}
+	vouch     func(key, chain []byte) bool            // the table holds chain under key right now
+	justified func(req int64, key, chain []byte) bool // the request with that tag had a successful Add / FindByKey of (key, chain)
+	inReq     int64                                   // goroutine of the request the harness is sending right now (0: none)
+	forced    bool                                    // the watchdog let a write through: nothing is judged any more
 }
 
 type ticket struct {
-	sound   bool // at arrival the storage held exactly this chain under this key
-	chain   []byte
 	key     string
+	chain   []byte
+	req     int64 // tag of the request context the write was made with (0: none)
+	hashOK  bool  // key = SHA-256(chain)
+	vouched bool  // at arrival the storage held exactly this chain under this key
+	just    bool  // at arrival the request had already got the chain into / out of the storage
+	inside  bool  // Set was called by the goroutine of the request itself: the request waits for the cache
 	release chan struct{}
 	done    chan struct{}
 }
 
+// gateWatchdog bounds how long a cache write waits at the gate.  It is no verdict: a write it lets through ends the
+// judging of that behaviour (a request of a changed implementation that waits for its own detached write would
+// otherwise hang the run).
+const gateWatchdog = 120 * time.Second
+
 func newGateCache(real cache.IssuanceChainCache) *GateCache {
-	return &GateCache{real: real, arrived: make(chan struct{}, 1024)}
+	return &GateCache{real: real, arrived: make(chan struct{}, 4096)}
+}
+
+func goid() int64 {
+	var buf [64]byte
+	n := runtime.Stack(buf[:], false)
+	f := strings.Fields(string(buf[:n])) // "goroutine 123 [running]:"
+	if len(f) < 2 {
+		return -1
+	}
+	id, _ := strconv.ParseInt(f[1], 10, 64)
+	return id
+}
+
+// during marks the calling goroutine as the one of the request being sent (until the returned function is called).
+func (g *GateCache) during() func() {
+	g.mu.Lock()
+	g.inReq = goid()
+	g.mu.Unlock()
+	return func() { g.mu.Lock(); g.inReq = 0; g.mu.Unlock() }
 }
 
 // Get passes through.
 func (g *GateCache) Get(ctx context.Context, key []byte) ([]byte, error) { return g.real.Get(ctx, key) }
 
-// Set waits at the gate.
+// Set waits at the gate - unless the request itself is the caller: then it goes through at once (the request could
+// never finish otherwise) and is remembered as a write inside the request.
 func (g *GateCache) Set(ctx context.Context, key []byte, chain []byte) error {
 	sum := sha256.Sum256(chain)
-	t := &ticket{key: string(key), chain: append([]byte{}, chain...), sound: bytes.Equal(sum[:], key) && (g.vouch == nil || g.vouch(key, chain)), release: make(chan struct{}), done: make(chan struct{})}
+	t := &ticket{key: string(key), chain: append([]byte{}, chain...), req: tagOf(ctx), hashOK: bytes.Equal(sum[:], key), release: make(chan struct{}), done: make(chan struct{})}
+	t.vouched = g.vouch == nil || g.vouch(key, chain)
+	t.just = t.req != 0 && g.justified != nil && g.justified(t.req, key, chain)
 	g.mu.Lock()
-	g.tickets = append(g.tickets, t)
+	t.inside = g.inReq != 0 && g.inReq == goid()
+	g.seen = append(g.seen, t)
+	if !t.inside {
+		g.tickets = append(g.tickets, t)
+	}
 	g.mu.Unlock()
+	if t.inside {
+		return g.real.Set(ctx, key, chain)
+	}
 	g.arrived <- struct{}{}
-	<-t.release
+	select {
+	case <-t.release:
+	case <-time.After(gateWatchdog):
+		g.mu.Lock()
+		g.forced = true
+		for i, o := range g.tickets {
+			if o == t {
+				g.tickets = append(g.tickets[:i], g.tickets[i+1:]...)
+				break
+			}
+		}
+		g.mu.Unlock()
+	}
 	err := g.real.Set(ctx, key, chain)
 	close(t.done)
 	return err
+}
+
+// Judge looks at the writes that arrived since the last call: how many are unsound, how many of them and of the
+// sound ones were made inside their request.
+func (g *GateCache) Judge() (unsound, inside int, forced bool) {
+	g.mu.Lock()
+	ts := g.seen[g.judged:]
+	g.judged = len(g.seen)
+	forced = g.forced
+	just := g.justified
+	g.mu.Unlock()
+	for _, t := range ts {
+		bad := !t.hashOK
+		switch {
+		case bad:
+		case t.req != 0 && just != nil && t.inside:
+			bad = !t.just // what counts is what the request had achieved when it told the cache
+		case t.req != 0 && just != nil:
+			bad = !just(t.req, []byte(t.key), t.chain)
+		default:
+			bad = !t.vouched
+		}
+		if bad {
+			unsound++
+		}
+		if t.inside {
+			inside++
+		}
+	}
+	return
 }
 
 // Fire lets one pending Set for key run to completion.
@@ -312,6 +446,11 @@ func (g *GateCache) Settle(want int) int {
 	for {
 		g.mu.Lock()
 		n := len(g.tickets)
+		for _, t := range g.seen[g.judged:] {
+			if t.inside {
+				n++ // a write made inside its request has arrived (and landed) too: nothing more to wait for
+			}
+		}
 		g.mu.Unlock()
 		if n >= want || time.Now().After(deadline) {
 			break
@@ -330,18 +469,6 @@ func (g *GateCache) Settle(want int) int {
 	return len(g.tickets)
 }
 
-// Unsound tells whether a write waiting at the gate carried, when it arrived, a chain the storage did not hold.
-func (g *GateCache) Unsound() bool {
-	g.mu.Lock()
-	defer g.mu.Unlock()
-	for _, t := range g.tickets {
-		if !t.sound {
-			return true
-		}
-	}
-	return false
-}
-
 // ReleaseAll lets every pending Set run (end of a behaviour).
 func (g *GateCache) ReleaseAll() {
 	g.mu.Lock()
@@ -358,14 +485,20 @@ func (g *GateCache) ReleaseAll() {
 type CSStep struct {
 	Op   string `json:"op"`
 	Args struct {
-		Cert  string `json:"cert"`
-		Fault string `json:"fault"`
-		K     int    `json:"k"`
-		Index int    `json:"index"`
-		To    int    `json:"to"`
-		Via   string `json:"via"`
-		Chain string `json:"chain"`
-		Class string `json:"class"`
+		Log    string `json:"log"` // the log of the process the step is about ("" in behaviours of one log: "X")
+		Cert   string `json:"cert"`
+		Fault  string `json:"fault"`
+		K      int    `json:"k"`
+		Index  int    `json:"index"`
+		To     int    `json:"to"`
+		Via    string `json:"via"`
+		Chain  string `json:"chain"`
+		Class  string `json:"class"`
+		Order  string `json:"order"` // ReadRange: completion order of the per-leaf work (latencies of the storage lookups)
+		Garble *struct {
+			Pos   int    `json:"pos"` // index of the leaf the backend returns garbled (-1: none)
+			Class string `json:"class"`
+		} `json:"garble"`
 	} `json:"args"`
 	Reply struct {
 		Status int      `json:"status"`
@@ -377,26 +510,116 @@ type CSStep struct {
 		Path   string   `json:"path"`   // Submit: "hit" | "inserted" | the dialect's de-duplication path | "error"
 		Layer  string   `json:"layer"`  // what the storage layer answers: "none" (not called) | "ok" / "data" | "error"
 		Layers []string `json:"layers"` // ReadRange: the same, lookup by lookup
+		Stored *bool    `json:"stored"` // Submit: the table of the log holds the chain when the submission is answered
 	} `json:"reply"`
+}
+
+func (s *CSStep) log() string {
+	if s.Args.Log == "" {
+		return "X"
+	}
+	return s.Args.Log
+}
+
+func (s *CSStep) garbled() (int, string) {
+	if s.Args.Garble == nil || s.Args.Garble.Class == "" || s.Args.Garble.Class == "none" {
+		return -1, ""
+	}
+	return s.Args.Garble.Pos, s.Args.Garble.Class
 }
 
 // CSBehaviour is one exported behaviour.
 type CSBehaviour struct {
-	Cap     int      `json:"cap"`
-	Dialect string   `json:"dialect"` // storage layer below the external twin: "memory" (also when absent) | "mysql" | "postgresql"
-	Steps   []CSStep `json:"steps"`
-	Cold    []bool   `json:"cold"` // per integrated entry: can a front end with a cold cache serve it from the final state (ServableCold)
+	Cap     int             `json:"cap"`
+	Dialect string          `json:"dialect"` // storage layer below the external twin: "memory" (also when absent) | "mysql" | "postgresql"
+	Logs    []string        `json:"logs"`    // the logs the process serves (absent: one log, "X")
+	Steps   []CSStep        `json:"steps"`
+	Cold    json.RawMessage `json:"cold"` // per log, per integrated entry: can a front end with a cold cache serve it from the final state (ServableCold)
 }
 
+func (b *CSBehaviour) logs() []string {
+	if len(b.Logs) == 0 {
+		return []string{"X"}
+	}
+	return sortedStrings(b.Logs)
+}
+
+// cold decodes the export: an object log -> []bool, or (behaviours of one log recorded before there were several) a plain array.
+func (b *CSBehaviour) cold() map[string][]bool {
+	out := map[string][]bool{}
+	if len(b.Cold) == 0 {
+		return nil
+	}
+	if json.Unmarshal(b.Cold, &out) == nil {
+		return out
+	}
+	var one []bool
+	if json.Unmarshal(b.Cold, &one) == nil {
+		return map[string][]bool{"X": one}
+	}
+	return nil
+}
+
+// twin is one log of the process: the same submissions go to a default-mode instance (d) and to an instance with
+// external chain storage (x), each on its own backend.
 type twin struct {
-	d, x, l *World // direct, external, legacy-leaf builder (direct mode, separate backend)
+	name    string
+	d, x, l *World // direct, external, legacy-leaf builder (direct mode, separate backend; shared by the logs)
 	dialect string
 	store   storeCtl
 	rec     *layerRec
 	gate    *GateCache
 	keys    map[string][]byte // chain id -> storage key (learned from the first Add of that chain)
 	vals    map[string][]byte // chain id -> stored value (likewise)
-	restart func() error      // replaces x by a new instance (same backend, same store) with a cold cache
+	mkX     func(backend *ctfeenv.Backend) (*World, error)
+	// outstanding: detached cache writes the specification has started and not yet fired (counted for the noop cache too)
+	outstanding int
+}
+
+// proc is one process serving several logs: one PKI, one log key and clock, and for every log its own backends, its
+// own storage table and its own cache - every cache built by the repository's constructor from the same options, as
+// setUpLogInfo does with the process-wide cache flags.
+type proc struct {
+	logs    map[string]*twin
+	names   []string
+	gen     int // restarts so far
+	newGate func(gen int) (*GateCache, error)
+}
+
+// restart replaces the external-storage instance of every log by a new one (same backend, same table through a new
+// database handle) with a cold cache: the caches and the detached writes still on their way die with the process.
+func (p *proc) restart() error {
+	p.gen++
+	for _, name := range p.names {
+		tw := p.logs[name]
+		old := tw.gate
+		g, err := p.newGate(p.gen)
+		if err != nil {
+			return err
+		}
+		tw.gate = g
+		tw.gate.vouch, tw.gate.justified = tw.holds, tw.rec.justified
+		tw.rec.set(tw.store.Reopen()) // the new process opens its own database handle on the same table
+		x, err := tw.mkX(tw.x.Env.Backend)
+		if err != nil {
+			return err
+		}
+		tw.x = x
+		tw.outstanding = 0
+		old.ReleaseAll() // writes of the dead process go to the dead cache
+	}
+	return nil
+}
+
+func (p *proc) shut(rep *vh.Report) {
+	for _, name := range p.names {
+		tw := p.logs[name]
+		tw.gate.ReleaseAll()
+		if rep != nil {
+			reportSQL(rep, tw)
+		}
+		tw.store.shut()
+	}
 }
 
 // chain ids of MCChainOf
@@ -437,7 +660,20 @@ func (tw *twin) damage(chain, class string, pick int) {
 	tw.store.setRow(key, damaged(v, class, other))
 }
 
-func newTwin(dir string, capacity int, seedSalt int64, realTTL time.Duration, dialect string) (*twin, error) {
+// cacheSerial makes the cache options of every process the harness starts distinct (a different TTL, far beyond
+// the length of a run): the logs of one process get equal options, two processes never do.
+var cacheSerial int64
+
+// newCache builds a cache the way setUpLogInfo does: through cache.NewIssuanceChainCache.
+func newCache(capacity int, ttl time.Duration) (cache.IssuanceChainCache, error) {
+	if capacity < 0 {
+		return cache.NewIssuanceChainCache(context.Background(), cache.NOOP, cache.Option{})
+	}
+	return cache.NewIssuanceChainCache(context.Background(), cache.LRU, cache.Option{Size: capacity, TTL: ttl})
+}
+
+// newProc builds a process with the given logs.  realTTL = 0: entries never expire within a run.
+func newProc(dir string, capacity int, seedSalt int64, realTTL time.Duration, dialect string, names []string) (*proc, error) {
 	ids := []string{"p1", "p2", "x1", "x2", "x3"}
 	pre := map[string]bool{"p1": true, "p2": true}
 	root := pki.NewRoot(pki.Opts{CN: "twin root"})
@@ -447,23 +683,6 @@ func newTwin(dir string, capacity int, seedSalt int64, realTTL time.Duration, di
 	logKey := pki.NewKey("p256")
 	clock := &ctfeenv.Clock{}
 	clock.Set(ctfeenv.BaseTime())
-	var real cache.IssuanceChainCache
-	if capacity < 0 {
-		real = &noop.IssuanceChainCache{}
-	} else {
-		real = lru.NewIssuanceChainCache(lru.CacheOption{Size: capacity, TTL: realTTL})
-	}
-	tw := &twin{dialect: dialect, gate: newGateCache(real), keys: map[string][]byte{}, vals: map[string][]byte{}}
-	switch dialect {
-	case "", "memory":
-		tw.dialect, tw.store = "memory", newMemStore()
-	case "mysql", "postgresql":
-		tw.store = newSQLStore(dialect)
-	default:
-		return nil, fmt.Errorf("unknown storage dialect %q", dialect)
-	}
-	tw.rec = &layerRec{inner: tw.store.Impl()}
-	tw.gate.vouch = tw.holds
 	subs := map[string]*Sub{}
 	for _, id := range ids {
 		s := &Sub{ID: id, Pre: pre[id]}
@@ -486,49 +705,138 @@ func newTwin(dir string, capacity int, seedSalt int64, realTTL time.Duration, di
 		s.Shape = chainOf[id]
 		subs[id] = s
 	}
-	mk := func(o ctfeenv.Opts) (*World, error) {
+	mk := func(o ctfeenv.Opts, prefix string) (*World, error) {
 		o.Dir, o.LogKey, o.Roots, o.Clock = dir, logKey, []*pki.Node{root}, clock
-		o.Prefix = "twin"
+		o.Prefix = prefix
 		env, err := ctfeenv.New(o)
 		if err != nil {
 			return nil, err
 		}
 		return &World{Root: root, Subs: subs, Env: env, Base: clock.Now(), rng: vh.Rand(seedSalt)}, nil
 	}
-	var err error
-	if tw.d, err = mk(ctfeenv.Opts{}); err != nil {
-		return nil, err
+	p := &proc{logs: map[string]*twin{}, names: names}
+	// equal options for every log of this process (and of its restarts: the flags do not change), other options
+	// than any other process of this run
+	ttl := realTTL
+	if ttl == 0 {
+		ttl = 1000*time.Hour + time.Duration(atomic.AddInt64(&cacheSerial, 1))*time.Microsecond
 	}
-	if tw.l, err = mk(ctfeenv.Opts{}); err != nil {
-		return nil, err
-	}
-	if tw.x, err = mk(ctfeenv.Opts{Storage: tw.rec, Cache: tw.gate}); err != nil {
-		return nil, err
-	}
-	tw.restart = func() error {
-		old := tw.gate
-		var fresh cache.IssuanceChainCache
-		if capacity < 0 {
-			fresh = &noop.IssuanceChainCache{}
-		} else {
-			fresh = lru.NewIssuanceChainCache(lru.CacheOption{Size: capacity, TTL: realTTL})
+	p.newGate = func(gen int) (*GateCache, error) {
+		t := ttl
+		if realTTL == 0 {
+			t += time.Duration(gen) * time.Nanosecond // a restarted process is another process
 		}
-		tw.gate = newGateCache(fresh)
-		tw.gate.vouch = tw.holds
-		tw.rec.set(tw.store.Reopen()) // the new process opens its own database handle on the same table
-		x, err := mk(ctfeenv.Opts{Storage: tw.rec, Cache: tw.gate, Backend: tw.x.Env.Backend})
+		c, err := newCache(capacity, t)
 		if err != nil {
-			return err
+			return nil, fmt.Errorf("cache.NewIssuanceChainCache: %v", err)
 		}
-		tw.x = x
-		old.ReleaseAll() // writes of the dead process go to the dead cache
-		return nil
+		return newGateCache(c), nil
 	}
-	return tw, nil
+	legacy, err := mk(ctfeenv.Opts{}, "twin")
+	if err != nil {
+		return nil, err
+	}
+	for _, name := range names {
+		tw := &twin{name: name, dialect: dialect, l: legacy, keys: map[string][]byte{}, vals: map[string][]byte{}}
+		if tw.gate, err = p.newGate(0); err != nil {
+			return nil, err
+		}
+		switch dialect {
+		case "", "memory":
+			tw.dialect, tw.store = "memory", newMemStore()
+		case "mysql", "postgresql":
+			tw.store = newSQLStore(dialect)
+		default:
+			return nil, fmt.Errorf("unknown storage dialect %q", dialect)
+		}
+		tw.rec = &layerRec{inner: tw.store.Impl()}
+		tw.gate.vouch, tw.gate.justified = tw.holds, tw.rec.justified
+		if tw.d, err = mk(ctfeenv.Opts{}, "twin"+name); err != nil {
+			return nil, err
+		}
+		tw.mkX = func(b *ctfeenv.Backend) (*World, error) {
+			return mk(ctfeenv.Opts{Storage: tw.rec, Cache: tw.gate, Backend: b}, "twin"+tw.name)
+		}
+		if tw.x, err = tw.mkX(nil); err != nil {
+			return nil, err
+		}
+		p.logs[name] = tw
+	}
+	return p, nil
 }
 
-// doCtx is Env.Do with a request context the harness can cancel (the SQL fault classes "cancel in flight").
-func doCtx(ctx context.Context, e *ctfeenv.Env, method, path string, qv url.Values, body []byte) (code int, rbody []byte, err error) {
+// newTwin builds a process with a single log.
+func newTwin(dir string, capacity int, seedSalt int64, realTTL time.Duration, dialect string) (*twin, *proc, error) {
+	p, err := newProc(dir, capacity, seedSalt, realTTL, dialect, []string{"X"})
+	if err != nil {
+		return nil, nil, err
+	}
+	return p.logs["X"], p, nil
+}
+
+// chainCerts decodes a stored issuance chain value with a reader of its own that knows DER lengths and nothing of the
+// repository's ASN.1 package: one SEQUENCE without trailing bytes whose elements are the certificates, each possibly
+// wrapped in further SEQUENCE / OCTET STRING layers (the stored form wraps every certificate in a structure of one
+// OCTET STRING).  want tells where the wrapping ends: the element must come down to exactly that certificate.
+func chainCerts(v []byte, want [][]byte) error {
+	tlv := func(b []byte) (tag byte, content, rest []byte, err error) {
+		if len(b) < 2 {
+			return 0, nil, nil, errors.New("truncated")
+		}
+		tag = b[0]
+		n := int(b[1])
+		b = b[2:]
+		if n >= 0x80 {
+			k := n & 0x7f
+			if k == 0 || k > 3 || len(b) < k {
+				return 0, nil, nil, errors.New("bad length")
+			}
+			n = 0
+			for i := 0; i < k; i++ {
+				n = n<<8 | int(b[i])
+			}
+			b = b[k:]
+		}
+		if n > len(b) {
+			return 0, nil, nil, fmt.Errorf("length %d beyond the %d bytes left", n, len(b))
+		}
+		return tag, b[:n], b[n:], nil
+	}
+	tag, body, rest, err := tlv(v)
+	if err != nil || tag != 0x30 || len(rest) != 0 {
+		return fmt.Errorf("not one DER SEQUENCE (tag %#x, %d trailing bytes, %v)", tag, len(rest), err)
+	}
+	for i, w := range want {
+		if len(body) == 0 {
+			return fmt.Errorf("%d certificates, want %d", i, len(want))
+		}
+		_, _, after, err := tlv(body)
+		if err != nil {
+			return fmt.Errorf("element %d: %v", i, err)
+		}
+		el := body[:len(body)-len(after)]
+		body = after
+		for depth := 0; !bytes.Equal(el, w); depth++ {
+			t, c, r, err := tlv(el)
+			if err != nil || len(r) != 0 || (t != 0x30 && t != 0x04) || depth > 3 {
+				return fmt.Errorf("element %d is not certificate %d of the submitted chain", i, i+1)
+			}
+			if bytes.Equal(c, w) {
+				break
+			}
+			el = c
+		}
+	}
+	if len(body) != 0 {
+		return fmt.Errorf("more than the %d certificates of the submitted chain", len(want))
+	}
+	return nil
+}
+
+// doCtx is Env.Do with a request context the harness can cancel (the SQL fault classes "cancel in flight") and tags
+// (the storage layer and the cache see which request a call belongs to).  gate, if not nil, is told that the calling
+// goroutine is the request: a cache write made by that goroutine goes through instead of waiting at the gate.
+func doCtx(ctx context.Context, e *ctfeenv.Env, gate *GateCache, method, path string, qv url.Values, body []byte) (code int, rbody []byte, err error) {
 	h, ok := e.Inst.Handlers[e.Prefix+path]
 	if !ok {
 		return 404, nil, nil
@@ -537,8 +845,12 @@ func doCtx(ctx context.Context, e *ctfeenv.Env, method, path string, qv url.Valu
 	if qv != nil {
 		target += "?" + qv.Encode()
 	}
+	ctx, _ = tagged(ctx)
 	req := httptest.NewRequest(method, target, bytes.NewReader(body)).WithContext(ctx)
 	rec := httptest.NewRecorder()
+	if gate != nil {
+		defer gate.during()()
+	}
 	defer func() {
 		if r := recover(); r != nil {
 			err = fmt.Errorf("panic in %s %s: %v", method, path, r)
@@ -549,13 +861,14 @@ func doCtx(ctx context.Context, e *ctfeenv.Env, method, path string, qv url.Valu
 	return rec.Code, rec.Body.Bytes(), nil
 }
 
-func addChainCtx(ctx context.Context, e *ctfeenv.Env, chain [][]byte, pre bool) (int, []byte, error) {
+// addChainCtx submits to the external-storage instance of a log.
+func addChainCtx(ctx context.Context, tw *twin, chain [][]byte, pre bool) (int, []byte, error) {
 	body, _ := json.Marshal(ct.AddChainRequest{Chain: chain})
 	path := ct.AddChainPath
 	if pre {
 		path = ct.AddPreChainPath
 	}
-	code, rb, err := doCtx(ctx, e, "POST", path, nil, body)
+	code, rb, err := doCtx(ctx, tw.x.Env, tw.gate, "POST", path, nil, body)
 	if err != nil || code != 200 {
 		return code, rb, err
 	}
@@ -567,12 +880,17 @@ func addChainCtx(ctx context.Context, e *ctfeenv.Env, chain [][]byte, pre bool) 
 }
 
 func readEntry(w *World, via string, index, size int) (int, []byte, []byte, error) {
-	return readEntryCtx(context.Background(), w, via, index, size)
+	return readEntryOn(context.Background(), w, nil, via, index, size)
 }
 
-func readEntryCtx(ctx context.Context, w *World, via string, index, size int) (int, []byte, []byte, error) {
+// readEntryCtx reads from the external-storage instance of a log.
+func readEntryCtx(ctx context.Context, tw *twin, via string, index, size int) (int, []byte, []byte, error) {
+	return readEntryOn(ctx, tw.x, tw.gate, via, index, size)
+}
+
+func readEntryOn(ctx context.Context, w *World, gate *GateCache, via string, index, size int) (int, []byte, []byte, error) {
 	if via == "proof" {
-		code, body, err := doCtx(ctx, w.Env, "GET", ct.GetEntryAndProofPath, q("leaf_index", index, "tree_size", size), nil)
+		code, body, err := doCtx(ctx, w.Env, gate, "GET", ct.GetEntryAndProofPath, q("leaf_index", index, "tree_size", size), nil)
 		if err != nil || code != 200 {
 			return code, nil, nil, err
 		}
@@ -582,7 +900,7 @@ func readEntryCtx(ctx context.Context, w *World, via string, index, size int) (i
 		}
 		return code, r.LeafInput, r.ExtraData, nil
 	}
-	code, body, err := doCtx(ctx, w.Env, "GET", ct.GetEntriesPath, q("start", index, "end", index), nil)
+	code, body, err := doCtx(ctx, w.Env, gate, "GET", ct.GetEntriesPath, q("start", index, "end", index), nil)
 	if err != nil || code != 200 {
 		return code, nil, nil, err
 	}
@@ -593,8 +911,13 @@ func readEntryCtx(ctx context.Context, w *World, via string, index, size int) (i
 	return code, r.Entries[0].LeafInput, r.Entries[0].ExtraData, nil
 }
 
-func readRange(ctx context.Context, w *World, from, to int) (int, []ct.LeafEntry, error) {
-	code, body, err := doCtx(ctx, w.Env, "GET", ct.GetEntriesPath, q("start", from, "end", to), nil)
+// readRange: tw (may be nil) names the log whose external-storage instance w is.
+func readRange(ctx context.Context, w *World, tw *twin, from, to int) (int, []ct.LeafEntry, error) {
+	var gate *GateCache
+	if tw != nil {
+		gate = tw.gate
+	}
+	code, body, err := doCtx(ctx, w.Env, gate, "GET", ct.GetEntriesPath, q("start", from, "end", to), nil)
 	if err != nil || code != 200 {
 		return code, nil, err
 	}
@@ -606,6 +929,9 @@ func readRange(ctx context.Context, w *World, from, to int) (int, []ct.LeafEntry
 }
 
 func lastRangeCause(s CSStep) string {
+	if _, class := s.garbled(); class != "" {
+		return "garbled-leaf"
+	}
 	if s.Args.Fault != "none" && s.Args.Fault != "" {
 		return s.Args.Fault
 	}
@@ -615,25 +941,122 @@ func lastRangeCause(s CSStep) string {
 	return "none"
 }
 
-func runChainStore(t *testing.T, beh CSBehaviour, idx int, rep *vh.Report, dir string) {
-	tw, err := newTwin(dir, beh.Cap, int64(idx), 0, beh.Dialect)
-	if err != nil {
-		t.Fatalf("twin: %v", err)
+// posClass names where in a page an index lies.
+func posClass(from, to, at int) string {
+	switch {
+	case from == to:
+		return "only"
+	case at == from:
+		return "first"
+	case at == to:
+		return "last"
 	}
-	defer func() { tw.gate.ReleaseAll(); reportSQL(rep, tw); tw.store.shut() }()
-	rep.Add("behaviours_on_"+tw.dialect+"_storage", 1)
+	return "middle"
+}
+
+// garbleLeaf is what the backend hands out instead of a stored leaf (GarbleClasses of ChainStore.tla): extra data that
+// is none of the four layouts, a hash layout cut short, no extra data, an empty leaf, the hash of nothing stored.
+func garbleLeaf(leaf *trillian.LogLeaf, class string, salt int) *trillian.LogLeaf {
+	out := proto.Clone(leaf).(*trillian.LogLeaf)
+	switch class {
+	case "garbageExtra":
+		// three 0xff: read as a 24-bit or as a 16-bit length they point beyond the end, whichever layout is tried
+		n := 5 + salt%60
+		out.ExtraData = bytes.Repeat([]byte{0xff}, 3)
+		for k := 0; k < n; k++ {
+			out.ExtraData = append(out.ExtraData, byte(salt*31+k*7))
+		}
+	case "truncatedHash":
+		ed := leaf.ExtraData
+		if len(ed) >= 34 && ed[len(ed)-34] == 0 && ed[len(ed)-33] == 32 && (len(ed) == 34 || len(ed) > 40) {
+			out.ExtraData = append([]byte{}, ed[:len(ed)-1-salt%3]...) // the stored hash layout without its last bytes
+		}
+		if len(ed) != 34 {
+			// a full-chain (legacy) or precertificate leaf: the certificate-chain hash layout, one byte short
+			out.ExtraData = append([]byte{0, 32}, bytes.Repeat([]byte{byte(0xa0 + salt%16)}, 31)...)
+		}
+	case "noExtraData":
+		out.ExtraData = nil
+	case "emptyLeaf":
+		out = &trillian.LogLeaf{LeafIndex: leaf.LeafIndex}
+	case "unknownHash":
+		h := sha256.Sum256([]byte(fmt.Sprintf("a chain nobody ever stored %d", salt)))
+		out.ExtraData = append([]byte{0, 32}, h[:]...)
+	}
+	return out
+}
+
+// pageDelays turns a completion order into latencies of the storage lookups of one page.
+func pageDelays(order string, keyRank map[string]int, n int) func(op string, key []byte, err error) time.Duration {
+	const unit = 400 * time.Microsecond
+	return func(op string, key []byte, err error) time.Duration {
+		if op != "find" {
+			return 0
+		}
+		r, ok := keyRank[string(key)]
+		if !ok {
+			r = n // a key the page is not known to need (the hash of a garbled leaf)
+		}
+		switch order {
+		case "asc":
+			return time.Duration(r+1) * unit
+		case "desc":
+			return time.Duration(n+1-r) * unit
+		case "failFast":
+			if err == nil {
+				return 4 * unit
+			}
+		case "failSlow":
+			if err != nil {
+				return 4 * unit
+			}
+		}
+		return 0
+	}
+}
+
+func runChainStore(t *testing.T, beh CSBehaviour, idx int, rep *vh.Report, dir string) {
+	names := beh.logs()
+	pr, err := newProc(dir, beh.Cap, int64(idx), 0, beh.Dialect, names)
+	if err != nil {
+		t.Errorf("twin: %v", err)
+		return
+	}
+	defer pr.shut(rep)
+	dialect := pr.logs[names[0]].dialect
+	rep.Add("behaviours_on_"+dialect+"_storage", 1)
+	if len(names) > 1 {
+		rep.Add("behaviours_with_several_logs_in_one_process", 1)
+	}
 	kinds := map[string]bool{}
 	diverged := false
+	unmodelled := false
+	infra := func(format string, a ...any) { // a failure of the harness itself: not a verdict
+		diverged = true
+		t.Errorf(format, a...)
+	}
 	viol := func(n int, fp, what string) {
 		diverged = true // once implementation and specification disagree the rest of the behaviour has no meaning
-		if tw.dialect != "memory" {
-			what = "[storage: the repository's " + tw.dialect + " IssuanceChainStorage on the in-process database] " + what
+		for _, name := range names {
+			pr.logs[name].gate.mu.Lock()
+			forced := pr.logs[name].gate.forced
+			pr.logs[name].gate.mu.Unlock()
+			if forced {
+				rep.Add("behaviours_cut_by_the_gate_watchdog", 1)
+				return
+			}
 		}
-		rep.Violate("chainstore:"+fp, what, map[string]any{"behaviour": CSBehaviour{Cap: beh.Cap, Dialect: beh.Dialect, Steps: beh.Steps[:n+1]}, "step": n})
+		if dialect != "memory" {
+			what = "[storage: the repository's " + dialect + " IssuanceChainStorage on the in-process database] " + what
+		}
+		if len(names) > 1 {
+			what = fmt.Sprintf("[process serving logs %v, every log with its own table and its own cache built by cache.NewIssuanceChainCache from equal options; step on log %s] ", names, beh.Steps[n].log()) + what
+		}
+		rep.Violate("chainstore:"+fp, what, map[string]any{"behaviour": CSBehaviour{Cap: beh.Cap, Dialect: beh.Dialect, Logs: beh.Logs, Steps: beh.Steps[:n+1]}, "step": n})
 	}
 	// the storage layer against the specification's reply.layer: was it called, did it answer with an error or not,
 	// and (FindByKey) are the bytes it handed back the bytes of the row.  cause names the situation for the fingerprint.
-	layerCheck := func(n int, op string, calls []layerCall, want []string, cause string) {
+	layerCheck := func(tw *twin, n int, op string, calls []layerCall, want []string, cause string) {
 		nw := 0
 		for _, w := range want {
 			if w != "none" && w != "" {
@@ -669,7 +1092,7 @@ func runChainStore(t *testing.T, beh CSBehaviour, idx int, rep *vh.Report, dir s
 			}
 		}
 	}
-	rowCause := func(chain string) string {
+	rowCause := func(tw *twin, chain string) string {
 		v, ok := tw.store.row(tw.keys[chain])
 		switch {
 		case !ok:
@@ -679,25 +1102,39 @@ func runChainStore(t *testing.T, beh CSBehaviour, idx int, rep *vh.Report, dir s
 		}
 		return "intact-row"
 	}
-	outstanding := 0 // detached cache writes the specification has started and not yet fired (counted for the noop cache too)
-	unmodelled := false
-	settle := func(n int, what string) {
-		if got := tw.gate.Settle(outstanding); got > outstanding {
-			// a cache write the specification does not know.  It is a violation when it is unsound: the cache is told
-			// about a chain that the store does not hold under that key (the cache stands for "stored", see add()).
-			// A sound extra write only means the implementation caches more eagerly than the model: the hit / miss
-			// predictions of this behaviour no longer apply, nothing more.
-			{
-				if tw.gate.Unsound() {
-					viol(n, "cache-write:unsound:"+what, fmt.Sprintf("a detached cache write carries a chain the storage does not hold under that hash (%d writes on their way, the specification knows of %d): a later submission of that chain is acknowledged from the cache alone and its entry cannot be served by a front end with a cold cache", got, outstanding))
-					return
+	// settle waits for the detached cache writes the specification has started, then judges every write that has
+	// arrived since the last look - on every log of the process: a write is sound only if the request that made it
+	// got that very chain into or out of the storage of that log (the cache stands for "stored", see add()).  An
+	// unsound write is a violation whenever it shows up; a sound one the specification does not know (or one made
+	// inside the request) only means the implementation caches more eagerly than the model: the hit / miss
+	// predictions of this behaviour no longer apply, nothing more.
+	settle := func(cur *twin, n int, what string) {
+		for _, name := range names {
+			tw := pr.logs[name]
+			got := tw.gate.Settle(tw.outstanding)
+			unsound, inside, forced := tw.gate.Judge()
+			where := ""
+			if tw != cur {
+				where = ":on-another-log-of-the-process"
+			}
+			switch {
+			case forced:
+				unmodelled = true
+				rep.Add("behaviours_cut_by_the_gate_watchdog", 1)
+			case unsound > 0 && inside > 0:
+				viol(n, "cache-write:unsound:"+what+":inside-the-request"+where, fmt.Sprintf("log %s: the request itself told the cache about a chain before (or without) getting that chain into or out of the storage under that hash (%d such writes): the cache stands for \"stored\", so a later submission of that chain - the retry, another leaf of the same issuer - is acknowledged from the cache alone and its entry cannot be served by a front end with a cold cache", name, unsound))
+			case unsound > 0:
+				viol(n, "cache-write:unsound:"+what+where, fmt.Sprintf("log %s: a detached cache write carries a chain that its request did not get into or out of the storage under that hash (%d unsound writes; %d writes on their way, the specification knows of %d): a later submission of that chain is acknowledged from the cache alone and its entry cannot be served by a front end with a cold cache", name, unsound, got, tw.outstanding))
+			case got > tw.outstanding || inside > 0:
+				unmodelled = true
+				rep.Add("behaviours_cut_at_unmodelled_cache_write", 1)
+				if os.Getenv("VERIF_DEBUG") != "" {
+					b, _ := json.Marshal(beh.Steps[:n+1])
+					fmt.Printf("UNMODELLED %s log=%s got=%d want=%d inside=%d cap=%d %s\n", what, name, got, tw.outstanding, inside, beh.Cap, b)
 				}
 			}
-			unmodelled = true
-			rep.Add("behaviours_cut_at_unmodelled_cache_write", 1)
-			if os.Getenv("VERIF_DEBUG") != "" {
-				b, _ := json.Marshal(beh.Steps[:n+1])
-				fmt.Printf("UNMODELLED %s got=%d want=%d cap=%d %s\n", what, got, outstanding, beh.Cap, b)
+			if diverged || unmodelled {
+				return
 			}
 		}
 	}
@@ -706,6 +1143,14 @@ func runChainStore(t *testing.T, beh CSBehaviour, idx int, rep *vh.Report, dir s
 			break
 		}
 		kinds[fmt.Sprintf("%s/%d/%s", s.Op, s.Reply.Status, s.Args.Fault)] = true
+		tw := pr.logs[s.log()]
+		if tw == nil && s.Op != "Restart" {
+			infra("behaviour %d step %d names the unknown log %q", idx, n, s.log())
+			break
+		}
+		if len(names) > 1 && s.Op != "Restart" {
+			kinds["log/"+s.log()] = true
+		}
 		switch s.Op {
 		case "Submit":
 			sub := tw.d.Subs[s.Args.Cert]
@@ -721,7 +1166,8 @@ func runChainStore(t *testing.T, beh CSBehaviour, idx int, rep *vh.Report, dir s
 				tw.store.arm(s.Args.Fault, idx*31+n, cancel)
 			}
 			q0 := tw.x.Env.Backend.CallCount("QueueLeaf")
-			codeX, bodyX, errX := addChainCtx(ctx, tw.x.Env, sub.Chain, sub.Pre)
+			c0 := tw.x.Env.Backend.NumCalls()
+			codeX, bodyX, errX := addChainCtx(ctx, tw, sub.Chain, sub.Pre)
 			cancel()
 			tw.store.disarm()
 			adds := tw.rec.since(m0, "add")
@@ -739,11 +1185,25 @@ func runChainStore(t *testing.T, beh CSBehaviour, idx int, rep *vh.Report, dir s
 					tw.vals[chain] = adds[len(adds)-1].data
 				}
 			}
+			// StoredRowIsChain: what is handed to the storage is the submitted chain (the validated path after the
+			// leaf, root included) under the SHA-256 of exactly those bytes - whatever else the process is doing at
+			// the same time (the behaviours are replayed side by side in one process)
+			for _, a := range adds {
+				sum := sha256.Sum256(a.data)
+				if err := chainCerts(a.data, sub.Path[1:]); err != nil {
+					viol(n, "submit:stored-chain-not-the-submitted-chain:"+chain, fmt.Sprintf("submission of %s: the %d bytes handed to the issuance chain storage do not decode to the %d certificates of the submitted chain: %v", s.Args.Cert, len(a.data), len(sub.Path)-1, err))
+				} else if !bytes.Equal(sum[:], a.key) {
+					viol(n, "submit:storage-key-not-the-hash-of-the-chain:"+chain, fmt.Sprintf("submission of %s: the chain is stored under a key that is not the SHA-256 of the stored bytes", s.Args.Cert))
+				}
+			}
+			if diverged {
+				continue
+			}
 			cause := s.Reply.Path
 			if s.Args.Fault != "none" {
 				cause = s.Args.Fault
 			}
-			layerCheck(n, "add", adds, []string{s.Reply.Layer}, cause)
+			layerCheck(tw, n, "add", adds, []string{s.Reply.Layer}, cause)
 			if s.Reply.Layer == "ok" && s.Reply.Path == "inserted" && len(adds) == 1 && adds[0].err == nil && !tw.holds(adds[0].key, adds[0].data) {
 				row, ok := tw.store.row(adds[0].key)
 				viol(n, fmt.Sprintf("storage:%s:add:inserted:row-differs", tw.dialect), fmt.Sprintf("storage layer (%s): Add of a new key returned no error, but the table does not hold the chain (%d bytes) under that IdentityHash (row present: %v, %d bytes)", tw.dialect, len(adds[0].data), ok, len(row)))
@@ -758,15 +1218,43 @@ func runChainStore(t *testing.T, beh CSBehaviour, idx int, rep *vh.Report, dir s
 				} else if len(adds) != 1 {
 					viol(n, "submit:add-calls:want=true", fmt.Sprintf("submission of %s: storage.Add called %d times, specification says once (with fault %s)", s.Args.Cert, len(adds), s.Args.Fault))
 				}
-				// the specification leaves the twin-visible state unchanged: the direct twin does not get this submission either
-				settle(n, "after-failed-add")
+				// the specification leaves the twin-visible state unchanged: the direct twin does not get this submission either.
+				// AddErrorIs5xx: no cache write is started either - settle judges whatever arrives, now or later
+				if !diverged {
+					settle(tw, n, "after-failed-add")
+				}
 				continue
 			}
 			if codeD, _, bodyD, errD := tw.d.Env.AddChain(sub.Chain, sub.Pre); errD != nil || codeD != 200 {
-				t.Fatalf("direct instance rejected %s: %d %v %s", s.Args.Cert, codeD, errD, bodyD)
+				// the default mode is the repository's code too: a chain both instances were built to accept and the
+				// external-storage instance has just accepted is a violation when refused, not a harness failure
+				viol(n, "direct-submit:"+chain, fmt.Sprintf("the default-mode instance did not accept %s, which the external-storage instance accepted: status %d %v %.200s", s.Args.Cert, codeD, errD, bodyD))
+				continue
 			}
-			if (len(adds) == 1) != s.Reply.Add {
-				viol(n, fmt.Sprintf("submit:add-calls:want=%v", s.Reply.Add), fmt.Sprintf("submission of %s: storage.Add called %d times, specification says cache %s", s.Args.Cert, len(adds), map[bool]string{true: "miss (Add)", false: "hit (no Add)"}[s.Reply.Add]))
+			// AckedIsStored: the leaf that was queued carries a hash; when the submission is answered the table of THIS
+			// log holds a row under that hash (unless storage damage removed it: reply.stored)
+			if s.Reply.Stored != nil && *s.Reply.Stored && !diverged {
+				var ed []byte
+				for _, c := range tw.x.Env.Backend.CallsSince(c0) {
+					if r, ok := c.Req.(*trillian.QueueLeafRequest); ok && r.Leaf != nil {
+						ed = r.Leaf.ExtraData
+					}
+				}
+				switch {
+				case len(ed) < 34 || ed[len(ed)-34] != 0 || ed[len(ed)-33] != 32:
+					viol(n, "submit:queued-leaf-without-chain-hash", fmt.Sprintf("submission of %s with external chain storage was acknowledged, but the leaf handed to the backend does not end in a 32-byte chain hash (%d bytes of extra data)", s.Args.Cert, len(ed)))
+				default:
+					if _, ok := tw.store.row(ed[len(ed)-32:]); !ok {
+						viol(n, "submit:acked-chain-not-stored:"+map[bool]string{true: "storage-called", false: "storage-not-called"}[len(adds) > 0], fmt.Sprintf("submission of %s to log %s was answered 200 and its leaf queued, but the issuance chain table of that log holds no row under the hash the leaf carries (storage.Add called %d times for this request): once the chain has left the cache (restart, eviction, expiry, another replica) the entry cannot be served", s.Args.Cert, tw.name, len(adds)))
+					}
+				}
+			}
+			if (len(adds) == 1) != s.Reply.Add && !diverged {
+				retry := ""
+				if n > 0 && beh.Steps[n-1].Op == "Submit" && beh.Steps[n-1].Reply.Status != 200 && chainOf[beh.Steps[n-1].Args.Cert] == chain {
+					retry = ":retry-after-failed-add"
+				}
+				viol(n, fmt.Sprintf("submit:add-calls:want=%v%s", s.Reply.Add, retry), fmt.Sprintf("submission of %s to log %s: storage.Add called %d times, specification says cache %s", s.Args.Cert, tw.name, len(adds), map[bool]string{true: "miss (Add)", false: "hit (no Add)"}[s.Reply.Add]))
 			}
 			if db := tw.store.sql(); db != nil && !diverged && s.Reply.Add {
 				// which path the database took: the de-duplication path is exactly the dialect's, and it leaves the row as it was
@@ -782,19 +1270,23 @@ func runChainStore(t *testing.T, beh CSBehaviour, idx int, rep *vh.Report, dir s
 					viol(n, "submit:dedup-row-changed:"+tw.dialect, fmt.Sprintf("submission of %s: the Add of a key the table already holds changed the stored row (%d -> %d bytes)", s.Args.Cert, len(rowBefore), len(rowAfter)))
 				}
 				if s.Args.Fault == "addConnLost" && st1.BadConnExec-st0.BadConnExec != 1 {
-					t.Fatalf("the connection loss did not strike once: %+v", st1)
+					infra("the connection loss did not strike once: %+v", st1)
 				}
 				kinds["path/"+s.Reply.Path] = true
 			}
+			if n > 0 && beh.Steps[n-1].Op == "Submit" && beh.Steps[n-1].Reply.Status != 200 && beh.Steps[n-1].log() == s.log() && chainOf[beh.Steps[n-1].Args.Cert] == chain {
+				kinds["retry-after-failed-add"] = true
+			}
 			if s.Reply.Add {
-				outstanding++
+				tw.outstanding++
 			}
-			settle(n, "after-submit")
+			if !diverged {
+				settle(tw, n, "after-submit")
+			}
 		case "Restart":
-			if err := tw.restart(); err != nil {
-				t.Fatalf("restart: %v", err)
+			if err := pr.restart(); err != nil {
+				infra("restart: %v", err)
 			}
-			outstanding = 0
 		case "Sequence":
 			nanos := tw.d.Nanos(1, 0)
 			tw.d.Env.Backend.Sequence(s.Args.K, nanos, nil)
@@ -803,16 +1295,23 @@ func runChainStore(t *testing.T, beh CSBehaviour, idx int, rep *vh.Report, dir s
 			sub := tw.l.Subs[s.Args.Cert]
 			n0 := tw.l.Env.Backend.NumCalls()
 			if c, _, b, e := tw.l.Env.AddChain(sub.Chain, sub.Pre); e != nil || c != 200 {
-				t.Fatalf("legacy builder rejected %s: %d %v %s", s.Args.Cert, c, e, b)
+				viol(n, "direct-submit:legacy:"+chainOf[s.Args.Cert], fmt.Sprintf("a default-mode instance did not accept %s: status %d %v %.200s", s.Args.Cert, c, e, b))
+				continue
 			}
-			req := tw.l.Env.Backend.CallsSince(n0)[0].Req.(*trillian.QueueLeafRequest)
+			calls := tw.l.Env.Backend.CallsSince(n0)
+			if len(calls) == 0 {
+				infra("legacy builder: no backend call")
+				continue
+			}
+			req := calls[0].Req.(*trillian.QueueLeafRequest)
 			nanos := tw.d.Nanos(1, 0)
 			tw.d.Env.Backend.InjectLeaf(req.Leaf.LeafValue, req.Leaf.ExtraData, nanos, req.Leaf.LeafIdentityHash)
 			tw.x.Env.Backend.InjectLeaf(req.Leaf.LeafValue, req.Leaf.ExtraData, nanos, req.Leaf.LeafIdentityHash)
 		case "Read":
 			size := tw.d.Env.Backend.Size()
 			if tw.x.Env.Backend.Size() != size {
-				t.Fatalf("twin trees diverged: %d vs %d", size, tw.x.Env.Backend.Size())
+				infra("twin trees diverged: %d vs %d", size, tw.x.Env.Backend.Size())
+				continue
 			}
 			codeD, leafD, extraD, errD := readEntry(tw.d, s.Args.Via, s.Args.Index, size)
 			if errD != nil || codeD != 200 {
@@ -828,9 +1327,9 @@ func runChainStore(t *testing.T, beh CSBehaviour, idx int, rep *vh.Report, dir s
 			m0 := tw.rec.mark()
 			cause := s.Args.Fault
 			if cause == "none" || strings.HasSuffix(cause, "ConnLost") {
-				cause = rowCause(chainOf[s.Reply.Cert])
+				cause = rowCause(tw, chainOf[s.Reply.Cert])
 			}
-			codeX, leafX, extraX, errX := readEntryCtx(ctx, tw.x, s.Args.Via, s.Args.Index, size)
+			codeX, leafX, extraX, errX := readEntryCtx(ctx, tw, s.Args.Via, s.Args.Index, size)
 			cancel()
 			tw.store.disarm()
 			finds := tw.rec.since(m0, "find")
@@ -840,7 +1339,7 @@ func runChainStore(t *testing.T, beh CSBehaviour, idx int, rep *vh.Report, dir s
 				continue
 			}
 			fpc := fmt.Sprintf("%s:%s", s.Args.Via, chainOf[s.Reply.Cert])
-			layerCheck(n, "find", finds, []string{s.Reply.Layer}, cause)
+			layerCheck(tw, n, "find", finds, []string{s.Reply.Layer}, cause)
 			if s.Reply.Status == 200 {
 				if codeX != 200 {
 					viol(n, fmt.Sprintf("read:status:%s:got%d", fpc, codeX), fmt.Sprintf("reading index %d (%s) with external chain storage answered %d, the direct mode serves it", s.Args.Index, s.Args.Via, codeX))
@@ -859,31 +1358,60 @@ func runChainStore(t *testing.T, beh CSBehaviour, idx int, rep *vh.Report, dir s
 				viol(n, fmt.Sprintf("read:fault-status:%s:got%d", fpc, codeX), fmt.Sprintf("storage fault answered %d, expected 5xx", codeX))
 			}
 			if s.Reply.Status == 200 && s.Reply.Find {
-				outstanding++
+				tw.outstanding++
 			}
 			if !diverged {
-				settle(n, "after-read")
+				settle(tw, n, "after-read")
 			}
-			if (f1-f0 == 1) != s.Reply.Find {
-				viol(n, fmt.Sprintf("read:find-calls:%s:want=%v", fpc, s.Reply.Find), fmt.Sprintf("index %d (%s): storage.FindByKey called %d times, specification says %v (cache capacity %d)", s.Args.Index, s.Args.Via, f1-f0, s.Reply.Find, beh.Cap))
+			if (f1-f0 == 1) != s.Reply.Find && !diverged && !unmodelled {
+				viol(n, fmt.Sprintf("read:find-calls:%s:want=%v", fpc, s.Reply.Find), fmt.Sprintf("index %d (%s) of log %s: storage.FindByKey called %d times, specification says %v (cache capacity %d)", s.Args.Index, s.Args.Via, tw.name, f1-f0, s.Reply.Find, beh.Cap))
 			}
 		case "ReadRange":
 			size := tw.d.Env.Backend.Size()
-			codeD, entsD, errD := readRange(context.Background(), tw.d, s.Args.Index, s.Args.To)
+			codeD, entsD, errD := readRange(context.Background(), tw.d, nil, s.Args.Index, s.Args.To)
 			if errD != nil || codeD != 200 || len(entsD) != s.Args.To-s.Args.Index+1 {
 				// the default mode is the repository's code too: an in-tree range (well below the batch limit) that is
 				// not served completely with 200 is a violation of C07's range law, not a harness failure
 				viol(n, "direct-readrange", fmt.Sprintf("the default-mode instance did not serve the in-tree range [%d, %d] of a tree of %d completely: status %d, %d entries, %v", s.Args.Index, s.Args.To, size, codeD, len(entsD), errD))
 				continue
 			}
+			gpos, gclass := s.garbled()
+			if gclass != "" {
+				kinds["garbled/"+gclass+"/"+posClass(s.Args.Index, s.Args.To, gpos)] = true
+				tw.x.Env.Backend.Intercept = func(seq int, method string, req, rsp proto.Message, err error) (proto.Message, error) {
+					if r, ok := rsp.(*trillian.GetLeavesByRangeResponse); ok && method == "GetLeavesByRange" && err == nil {
+						for k, lf := range r.Leaves {
+							if lf != nil && lf.LeafIndex == int64(gpos) {
+								r.Leaves[k] = garbleLeaf(lf, gclass, idx*131+n)
+							}
+						}
+					}
+					return rsp, err
+				}
+			}
+			// the completion order of the per-leaf work: latencies of the storage lookups, by the place of the key in the page
+			if s.Args.Order != "" {
+				rank := map[string]int{}
+				for i := s.Args.Index; i <= s.Args.To; i++ {
+					if lf := tw.x.Env.Backend.Leaf(i); lf != nil && len(lf.ExtraData) >= 32 {
+						if _, ok := rank[string(lf.ExtraData[len(lf.ExtraData)-32:])]; !ok {
+							rank[string(lf.ExtraData[len(lf.ExtraData)-32:])] = i - s.Args.Index
+						}
+					}
+				}
+				tw.rec.setDelay(pageDelays(s.Args.Order, rank, s.Args.To-s.Args.Index+1))
+				kinds["order/"+s.Args.Order] = true
+			}
 			ctx, cancel := context.WithCancel(context.Background())
 			if s.Args.Fault != "none" {
 				tw.store.arm(s.Args.Fault, idx*31+n, cancel)
 			}
 			m0 := tw.rec.mark()
-			codeX, entsX, errX := readRange(ctx, tw.x, s.Args.Index, s.Args.To)
+			codeX, entsX, errX := readRange(ctx, tw.x, tw, s.Args.Index, s.Args.To)
 			cancel()
 			tw.store.disarm()
+			tw.rec.setDelay(nil)
+			tw.x.Env.Backend.Intercept = nil
 			finds := tw.rec.since(m0, "find")
 			f0, f1 := 0, len(finds)
 			fpr := fmt.Sprintf("range:%s", lastRangeCause(s))
@@ -891,7 +1419,18 @@ func runChainStore(t *testing.T, beh CSBehaviour, idx int, rep *vh.Report, dir s
 				viol(n, "readrange:panic", errX.Error())
 				continue
 			}
-			layerCheck(n, "find", finds, s.Reply.Layers, "range:"+lastRangeCause(s))
+			if gclass != "" {
+				// GarbledLeafIsError: whatever the position of the leaf and the completion order of the others
+				if codeX == 200 {
+					viol(n, fmt.Sprintf("readrange:garbled-leaf-served-200:%s:%s", gclass, posClass(s.Args.Index, s.Args.To, gpos)), fmt.Sprintf("get-entries(%d,%d) with external chain storage: the backend returned leaf %d (%s of the page) with %s, which cannot be fixed up, yet the page was answered 200 with %d entries (completion order of the other leaves: %s)", s.Args.Index, s.Args.To, gpos, posClass(s.Args.Index, s.Args.To, gpos), gclass, len(entsX), s.Args.Order))
+					continue
+				}
+				if codeX < 500 {
+					viol(n, fmt.Sprintf("readrange:garbled-leaf-status:%s:got%d", gclass, codeX), fmt.Sprintf("get-entries(%d,%d): a backend leaf that cannot be fixed up (%s) answered %d, expected 5xx", s.Args.Index, s.Args.To, gclass, codeX))
+					continue
+				}
+			}
+			layerCheck(tw, n, "find", finds, s.Reply.Layers, "range:"+lastRangeCause(s))
 			// whatever the status: chain data that is served is the direct mode's, entry by entry
 			if codeX == 200 {
 				if len(entsX) == 0 || len(entsX) > len(entsD) {
@@ -901,7 +1440,11 @@ func runChainStore(t *testing.T, beh CSBehaviour, idx int, rep *vh.Report, dir s
 				bad := false
 				for i := range entsX {
 					if !bytes.Equal(entsX[i].LeafInput, entsD[i].LeafInput) || !bytes.Equal(entsX[i].ExtraData, entsD[i].ExtraData) {
-						viol(n, "readrange:differs:"+fpr, fmt.Sprintf("get-entries(%d,%d): entry %d served with external chain storage carries %d bytes of extra_data, the direct mode %d (specification: status %d)", s.Args.Index, s.Args.To, s.Args.Index+i, len(entsX[i].ExtraData), len(entsD[i].ExtraData), s.Reply.Status))
+						fp := "readrange:differs:" + fpr
+						if s.Reply.Status != 200 {
+							fp = fmt.Sprintf("readrange:unfixed-leaf-served-200:%s:%s", fpr, posClass(s.Args.Index, s.Args.To, s.Args.Index+i))
+						}
+						viol(n, fp, fmt.Sprintf("get-entries(%d,%d): entry %d served with external chain storage carries %d bytes of extra_data, the direct mode %d (specification: status %d; completion order %s)", s.Args.Index, s.Args.To, s.Args.Index+i, len(entsX[i].ExtraData), len(entsD[i].ExtraData), s.Reply.Status, s.Args.Order))
 						bad = true
 						break
 					}
@@ -925,15 +1468,12 @@ func runChainStore(t *testing.T, beh CSBehaviour, idx int, rep *vh.Report, dir s
 				continue
 			}
 			if f1-f0 != s.Reply.Finds {
-				viol(n, fmt.Sprintf("readrange:find-calls:want=%d", s.Reply.Finds), fmt.Sprintf("get-entries(%d,%d): storage.FindByKey called %d times, specification says %d (cache capacity %d)", s.Args.Index, s.Args.To, f1-f0, s.Reply.Finds, beh.Cap))
+				viol(n, fmt.Sprintf("readrange:find-calls:want=%d", s.Reply.Finds), fmt.Sprintf("get-entries(%d,%d): storage.FindByKey called %d times, specification says %d (cache capacity %d, completion order %s)", s.Args.Index, s.Args.To, f1-f0, s.Reply.Finds, beh.Cap, s.Args.Order))
 				continue
 			}
-			// every storage lookup that succeeded is followed by a detached cache write (also with the noop cache)
-			outstanding += s.Reply.Finds
-			if s.Reply.Status != 200 {
-				outstanding--
-			}
-			settle(n, "after-readrange")
+			// every storage lookup that handed back an intact row is followed by a detached cache write (also with the noop cache)
+			tw.outstanding += s.Reply.Sets
+			settle(tw, n, "after-readrange")
 		case "CacheSetFires":
 			key, ok := tw.keys[s.Args.Chain]
 			if !ok {
@@ -943,39 +1483,53 @@ func runChainStore(t *testing.T, beh CSBehaviour, idx int, rep *vh.Report, dir s
 			if err := tw.gate.Fire(key); err != nil {
 				viol(n, "cachesetfires:missing", "the specification expects a detached cache.Set for chain "+s.Args.Chain+" but none arrived: "+err.Error())
 			}
-			outstanding--
+			tw.outstanding--
 		case "DropRow":
 			tw.damage(s.Args.Chain, "drop", 0)
 		case "Corrupt":
 			tw.damage(s.Args.Chain, s.Args.Class, idx+n)
 		}
 	}
-	if !diverged && !unmodelled && len(beh.Cold) == tw.x.Env.Backend.Size() {
-		// the specification's own continuation: every detached write lands, the front end is replaced by one with a
-		// cold cache (restart / another replica), every integrated entry is read; ServableCold says which must be served
-		tw.gate.ReleaseAll()
-		if err := tw.restart(); err != nil {
-			t.Fatalf("restart: %v", err)
+	cold := beh.cold()
+	sizes := true
+	for _, name := range names {
+		if len(cold[name]) != pr.logs[name].x.Env.Backend.Size() {
+			sizes = false
 		}
-		size := tw.d.Env.Backend.Size()
+	}
+	if !diverged && !unmodelled && cold != nil && sizes {
+		// the specification's own continuation: every detached write lands, the process is replaced by one with
+		// cold caches (restart / another replica), every integrated entry of every log is read; ServableCold says
+		// which must be served
+		for _, name := range names {
+			pr.logs[name].gate.ReleaseAll()
+		}
+		if err := pr.restart(); err != nil {
+			infra("restart: %v", err)
+			return
+		}
 		n := len(beh.Steps) - 1
-		for i, servable := range beh.Cold {
-			for _, via := range []string{"entries", "proof"} {
-				codeD, leafD, extraD, errD := readEntry(tw.d, via, i, size)
-				if errD != nil || codeD != 200 {
-					viol(n, "direct-read:"+via, fmt.Sprintf("the default-mode instance did not serve stored entry %d (tree size %d): status %d %v", i, size, codeD, errD))
-					continue
-				}
-				codeX, leafX, extraX, errX := readEntry(tw.x, via, i, size)
-				switch {
-				case errX != nil && codeX == 0:
-					viol(n, "cold:panic:"+via, errX.Error())
-				case servable && codeX != 200:
-					viol(n, "cold:unserved:"+via, fmt.Sprintf("after a restart (cold cache) index %d is answered %d over %s although its chain was stored and no storage damage touched it: the entry was acknowledged, sequenced and is no longer served", i, codeX, via))
-				case codeX == 200 && (!bytes.Equal(leafX, leafD) || !bytes.Equal(extraX, extraD)):
-					viol(n, "cold:differs:"+via, fmt.Sprintf("after a restart index %d is served with other bytes than the direct mode (%s)", i, via))
-				case !servable && codeX != 200 && codeX < 500:
-					viol(n, "cold:fault-status:"+via, fmt.Sprintf("damaged / missing stored chain answered %d, expected 5xx", codeX))
+		for _, name := range names {
+			tw := pr.logs[name]
+			size := tw.d.Env.Backend.Size()
+			for i, servable := range cold[name] {
+				for _, via := range []string{"entries", "proof"} {
+					codeD, leafD, extraD, errD := readEntry(tw.d, via, i, size)
+					if errD != nil || codeD != 200 {
+						viol(n, "direct-read:"+via, fmt.Sprintf("the default-mode instance did not serve stored entry %d (tree size %d): status %d %v", i, size, codeD, errD))
+						continue
+					}
+					codeX, leafX, extraX, errX := readEntryCtx(context.Background(), tw, via, i, size)
+					switch {
+					case errX != nil && codeX == 0:
+						viol(n, "cold:panic:"+via, errX.Error())
+					case servable && codeX != 200:
+						viol(n, "cold:unserved:"+via, fmt.Sprintf("after a restart (cold cache) index %d of log %s is answered %d over %s although its chain was stored and no storage damage touched it: the entry was acknowledged, sequenced and is no longer served", i, name, codeX, via))
+					case codeX == 200 && (!bytes.Equal(leafX, leafD) || !bytes.Equal(extraX, extraD)):
+						viol(n, "cold:differs:"+via, fmt.Sprintf("after a restart index %d of log %s is served with other bytes than the direct mode (%s)", i, name, via))
+					case !servable && codeX != 200 && codeX < 500:
+						viol(n, "cold:fault-status:"+via, fmt.Sprintf("damaged / missing stored chain answered %d, expected 5xx", codeX))
+					}
 				}
 			}
 		}
@@ -987,7 +1541,7 @@ func runChainStore(t *testing.T, beh CSBehaviour, idx int, rep *vh.Report, dir s
 		for k := range kinds {
 			ks = append(ks, k)
 		}
-		key = fmt.Sprintf("%s:cap%d:%s", tw.dialect, beh.Cap, strings.Join(sortedStrings(ks), ","))
+		key = fmt.Sprintf("%s:cap%d:%s", dialect, beh.Cap, strings.Join(sortedStrings(ks), ","))
 	}
 	rep.Eval(key)
 }
@@ -1052,7 +1606,7 @@ func TestChainStore(t *testing.T) {
 	if err != nil {
 		t.Fatal(err)
 	}
-	rep := vh.NewReport("cctfe-chainstore", "behaviours of ChainStore.tla (submissions, sequencing, legacy full-chain entries, reads through both read endpoints, detached cache writes fired at chosen points, storage faults / dropped / damaged rows) replayed on two real instances (direct and external chain storage with the real LRU/noop cache behind a gate) fed the same submissions; the external instance stores through the layer the behaviour names (Dialect): the in-memory stand-in, or the repository's MySQL / PostgreSQL IssuanceChainStorage on an in-process database/sql driver with the dialect's semantics and fault classes (statement error, cancellation in flight / after the commit, lost connection, database down, result-set error); every served entry compared byte for byte, every answer of the storage layer and the path the database took (inserted / duplicate-key error / conflict skipped) compared with the specification; non-trivial = distinct (storage layer, cache capacity, set of (operation, status, fault) triples and de-duplication paths >= 3)")
+	rep := vh.NewReport("cctfe-chainstore", "behaviours of ChainStore.tla (submissions, sequencing, legacy full-chain entries, reads through both read endpoints, detached cache writes fired at chosen points, storage faults / dropped / damaged rows) replayed on two real instances (direct and external chain storage with the real LRU/noop cache behind a gate) fed the same submissions; the external instance stores through the layer the behaviour names (Dialect): the in-memory stand-in, or the repository's MySQL / PostgreSQL IssuanceChainStorage on an in-process database/sql driver with the dialect's semantics and fault classes (statement error, cancellation in flight / after the commit, lost connection, database down, result-set error); every served entry compared byte for byte, every answer of the storage layer and the path the database took (inserted / duplicate-key error / conflict skipped) compared with the specification; the process serves the logs the behaviour names (two in the simulated behaviours), each with its own backend, table and cache - caches built by cache.NewIssuanceChainCache from equal options; a failed storage.Add is followed by the re-submission (same leaf or a sibling); every cache write arriving at the gate is judged sound only if its own request got that chain into or out of the storage under that hash; what is acknowledged is looked up in the table of that log; what is handed to a storage must decode to the submitted chain under its own SHA-256; get-entries pages are read under the completion order the behaviour names (latencies of the storage lookups) and with the leaf the behaviour names garbled by the backend; non-trivial = distinct (storage layer, cache capacity, set of (operation, status, fault) triples and de-duplication paths >= 3)")
 	dir := t.TempDir()
 	// one goroutine per behaviour behind a semaphore: a t.Fatalf inside a behaviour (an infrastructure failure) ends
 	// that goroutine only and can never leave the feeder blocked
@@ -1077,58 +1631,183 @@ func TestChainStore(t *testing.T) {
 	}
 }
 
-// TestChainStoreConcurrent: concurrent writers and readers against the external-storage instance with the
-// real cache (tiny capacity and TTL, no gate), under the race detector; afterwards every entry must equal
-// what the direct mode serves for the same leaf.
+// TestChainStoreConcurrent: a process with two logs (own tables, caches from the same constructor and options), the
+// real cache with tiny capacity and TTL and NO gate (detached writes land when they land), under the race detector.
+// Phases per round: (1) every chain meets a failing storage.Add, the submission is sent again once the dust has
+// settled (same leaf or another leaf of the same issuer) - what is acknowledged is in the table of that log; (2)
+// bursts of submissions released together (chains with two RSA intermediates and the root among them) to both logs;
+// (3) writers and readers at random; (4) everything handed to a storage decodes to a submitted chain under its own
+// hash; (5) the process is restarted and every entry of both logs is read cold.  Law throughout: what is served is
+// what the direct mode serves for the same leaf; what is acknowledged is stored.
 func TestChainStoreConcurrent(t *testing.T) {
-	rep := vh.NewReport("cctfe-chainstore-concurrent", "concurrent submissions and reads on the external-storage instance (storage in turn: in-memory, the repository's MySQL and PostgreSQL IssuanceChainStorage on the in-process database; real LRU, capacity 1-2, TTL 1-3 ms, ungated detached cache writes, -race); every served entry compared with the direct mode by leaf; non-trivial = round with at least 3 distinct chains served")
+	rep := vh.NewReport("cctfe-chainstore-concurrent", "a process serving two logs with external chain storage (storage in turn: in-memory, the repository's MySQL and PostgreSQL IssuanceChainStorage on the in-process database; caches built by cache.NewIssuanceChainCache from equal options: LRU capacity 1-2, TTL 1-3 ms; ungated detached cache writes; -race): failed storage.Add followed by the re-submission with the cache as the implementation left it, bursts of overlapping submissions (chains of 0, 1 and 3 certificates) to both logs, random writers and readers, audit of every chain handed to a storage, cold reads of every entry after a restart; every served entry compared with the direct mode by leaf, every acknowledged submission looked up in the table of its log; non-trivial = round with at least 3 distinct chains served")
 	rounds := vh.EnvInt("VERIF_ROUNDS", 6)
+	ids := []string{"p1", "p2", "x1", "x2", "x3"}
 	for r := 0; r < rounds; r++ {
 		dialect := []string{"memory", "mysql", "postgresql"}[r%3]
-		tw, err := newTwin(t.TempDir(), 1+r%2, int64(1000+r), time.Duration(1+(r/2)%3)*time.Millisecond, dialect)
+		pr, err := newProc(t.TempDir(), 1+r%2, int64(1000+r), time.Duration(1+(r/2)%3)*time.Millisecond, dialect, []string{"X", "Y"})
 		if err != nil {
 			t.Fatal(err)
 		}
-		tw.gate.arrived = make(chan struct{}, 1<<16)
+		viol := func(fp, what string) {
+			rep.Violate("chainstore:concurrent:"+fp, fmt.Sprintf("[round %d, %s storage] ", r, dialect)+what, nil)
+		}
 		stop := make(chan struct{})
-		go func() { // ungated: fire everything as it arrives
-			for {
-				select {
-				case <-stop:
-					return
-				case <-tw.gate.arrived:
-					tw.gate.ReleaseAll()
+		ungate := func(stop chan struct{}) {
+			for _, name := range pr.names {
+				g := pr.logs[name].gate
+				g.arrived = make(chan struct{}, 1<<16)
+				go func() { // ungated: fire everything as it arrives
+					for {
+						select {
+						case <-stop:
+							return
+						case <-g.arrived:
+							g.ReleaseAll()
+						}
+					}
+				}()
+			}
+		}
+		ungate(stop)
+		X := pr.logs["X"]
+		direct := true
+		for _, id := range ids {
+			s := X.d.Subs[id]
+			if c, _, b, e := X.d.Env.AddChain(s.Chain, s.Pre); e != nil || c != 200 {
+				viol("direct-submit:"+chainOf[id], fmt.Sprintf("the default-mode instance did not accept %s: %d %v %.200s", id, c, e, b))
+				direct = false
+			}
+		}
+		want := map[string][]byte{}
+		if direct {
+			X.d.Env.Backend.Sequence(5, X.d.Nanos(1, 0), nil)
+			for i := 0; i < 5; i++ {
+				c, leaf, extra, err := readEntry(X.d, "entries", i, 5)
+				if err != nil || c != 200 {
+					viol("direct-read", fmt.Sprintf("the default-mode instance did not serve entry %d: %d %v", i, c, err))
+					direct = false
+					break
+				}
+				want[string(leaf)] = extra
+			}
+		}
+		if !direct {
+			close(stop)
+			pr.shut(rep)
+			rep.Eval("")
+			continue
+		}
+		// the key every chain is stored under: learned from the first Add (on any log) that hands over bytes which
+		// decode to that chain
+		var kmu sync.Mutex
+		keyOf := map[string][]byte{}
+		audited := map[string]int{}
+		audit := func() {
+			kmu.Lock()
+			defer kmu.Unlock()
+			for _, name := range pr.names {
+				tw := pr.logs[name]
+				calls := tw.rec.since(audited[name], "add")
+				audited[name] = tw.rec.mark()
+				for _, a := range calls {
+					sum := sha256.Sum256(a.data)
+					var chain string
+					for _, id := range ids {
+						if chainCerts(a.data, tw.x.Subs[id].Path[1:]) == nil {
+							chain = chainOf[id]
+							break
+						}
+					}
+					switch {
+					case chain == "":
+						viol("stored-chain-not-a-submitted-chain", fmt.Sprintf("log %s: %d bytes were handed to the issuance chain storage that decode to none of the submitted chains (overlapping submissions)", name, len(a.data)))
+					case !bytes.Equal(sum[:], a.key):
+						viol("storage-key-not-the-hash-of-the-chain", fmt.Sprintf("log %s: chain %s handed to the storage under a key that is not the SHA-256 of its bytes", name, chain))
+					case a.err == nil:
+						if _, ok := keyOf[chain]; !ok {
+							keyOf[chain] = a.key
+						}
+					}
 				}
 			}
-		}()
-		ids := []string{"p1", "p2", "x1", "x2", "x3"}
-		for _, id := range ids {
-			s := tw.d.Subs[id]
-			if c, _, b, e := tw.d.Env.AddChain(s.Chain, s.Pre); e != nil || c != 200 {
-				t.Fatalf("direct: %d %v %s", c, e, b)
+		}
+		// acked: a submission of id to log tw was answered 200 just now
+		acked := func(tw *twin, id, phase string) {
+			audit()
+			kmu.Lock()
+			key, ok := keyOf[chainOf[id]]
+			kmu.Unlock()
+			if !ok {
+				viol("acked-chain-not-stored:"+phase, fmt.Sprintf("submission of %s to log %s was answered 200, but its issuance chain was never handed to any storage successfully", id, tw.name))
+			} else if _, ok := tw.store.row(key); !ok {
+				viol("acked-chain-not-stored:"+phase, fmt.Sprintf("submission of %s to log %s was answered 200 and its leaf queued, but the issuance chain table of that log holds no row for the chain: once the chain has left the cache the entry cannot be served", id, tw.name))
 			}
 		}
-		tw.d.Env.Backend.Sequence(5, tw.d.Nanos(1, 0), nil)
-		want := map[string][]byte{}
-		for i := 0; i < 5; i++ {
-			_, leaf, extra, err := readEntry(tw.d, "entries", i, 5)
-			if err != nil {
-				t.Fatal(err)
+		submit := func(tw *twin, id, phase string) int {
+			s := tw.x.Subs[id]
+			c, b, e := addChainCtx(context.Background(), tw, s.Chain, s.Pre)
+			switch {
+			case e != nil && c == 0:
+				viol("submit:panic:"+phase, e.Error())
+			case e != nil:
+				viol("submit:reply:"+phase, e.Error())
+			case c == 200:
+				acked(tw, id, phase)
 			}
-			want[string(leaf)] = extra
+			_ = b
+			return c
 		}
+		// (1) failed Add, then the re-submission, detached writes landing as they please
+		for k, pair := range [][2]string{{"x1", "x2"}, {"p1", "p1"}, {"x3", "x3"}} {
+			tw := pr.logs[pr.names[(r+k)%2]]
+			tw.store.arm("addError", r*7+k, func() {})
+			c := submit(tw, pair[0], "failed-add")
+			tw.store.disarm()
+			if c == 200 || (c != 0 && c < 500) {
+				viol(fmt.Sprintf("submit:storage-fault-not-5xx:got%d", c), fmt.Sprintf("storage.Add failed but the submission of %s answered %d", pair[0], c))
+			}
+			// let a write that should not exist arrive and land (it is let through as it arrives); no verdict hangs on it
+			for y := 0; y < 50; y++ {
+				runtime.Gosched()
+			}
+			time.Sleep(2 * time.Millisecond)
+			if c := submit(tw, pair[1], "retry-after-failed-add"); c != 200 && c != 0 {
+				viol(fmt.Sprintf("submit:status:retry:got%d", c), fmt.Sprintf("the re-submission (%s) after a failed storage.Add answered %d", pair[1], c))
+			}
+		}
+		// (2) bursts: submissions released together
+		for burst := 0; burst < 3; burst++ {
+			var wg sync.WaitGroup
+			start := make(chan struct{})
+			for g := 0; g < 8; g++ {
+				wg.Add(1)
+				go func(g int) {
+					defer wg.Done()
+					tw := pr.logs[pr.names[(g+burst)%2]]
+					id := []string{"p1", "x1", "p1", "p2", "p1", "x3", "p1", "x2"}[(g+burst)%8]
+					<-start
+					if c := submit(tw, id, "burst"); c != 200 && c != 0 {
+						viol(fmt.Sprintf("submit:status:burst:got%d", c), fmt.Sprintf("overlapping submission of %s to log %s answered %d", id, tw.name, c))
+					}
+				}(g)
+			}
+			close(start)
+			wg.Wait()
+		}
+		// (3) writers and readers at random
 		var wg sync.WaitGroup
 		for g := 0; g < 4; g++ {
 			wg.Add(1)
 			go func(g int) {
 				defer wg.Done()
 				rng := vh.Rand(int64(r*10 + g))
-				for k := 0; k < 40; k++ {
+				for k := 0; k < 30; k++ {
 					id := ids[rng.Intn(len(ids))]
-					s := tw.x.Subs[id]
+					tw := pr.logs[pr.names[rng.Intn(4)/3]] // mostly the first log
 					if rng.Intn(2) == 0 {
-						if c, _, b, e := tw.x.Env.AddChain(s.Chain, s.Pre); e != nil || c != 200 {
-							rep.Violate("chainstore:concurrent:submit", fmt.Sprintf("concurrent submission answered %d %v %s", c, e, b), nil)
+						if c := submit(tw, id, "mixed"); c != 200 && c != 0 {
+							viol("submit", fmt.Sprintf("concurrent submission of %s answered %d", id, c))
 						}
 						if rng.Intn(3) == 0 {
 							tw.x.Env.Backend.Sequence(1, tw.x.Nanos(1, 0), nil)
@@ -1136,11 +1815,11 @@ func TestChainStoreConcurrent(t *testing.T) {
 					} else if n := tw.x.Env.Backend.Size(); n > 0 {
 						i := rng.Intn(n)
 						via := []string{"entries", "proof"}[rng.Intn(2)]
-						c, leaf, extra, e := readEntry(tw.x, via, i, n)
+						c, leaf, extra, e := readEntryCtx(context.Background(), tw, via, i, n)
 						if e != nil || c != 200 {
-							rep.Violate("chainstore:concurrent:read-status", fmt.Sprintf("concurrent read answered %d %v", c, e), nil)
+							viol("read-status", fmt.Sprintf("concurrent read of index %d of log %s answered %d %v", i, tw.name, c, e))
 						} else if w, ok := want[string(leaf)]; !ok || !bytes.Equal(w, extra) {
-							rep.Violate("chainstore:concurrent:differs", fmt.Sprintf("concurrent read of index %d (%s) served extra_data that differs from the direct mode", i, via), nil)
+							viol("differs", fmt.Sprintf("concurrent read of index %d (%s) of log %s served extra_data that differs from the direct mode", i, via, tw.name))
 						}
 						time.Sleep(time.Duration(rng.Intn(3)) * time.Millisecond)
 					}
@@ -1148,11 +1827,42 @@ func TestChainStoreConcurrent(t *testing.T) {
 			}(g)
 		}
 		wg.Wait()
+		audit()
+		// (5) restart, cold reads of everything
+		for _, name := range pr.names {
+			tw := pr.logs[name]
+			tw.x.Env.Backend.Sequence(tw.x.Env.Backend.Queued(), tw.x.Nanos(2, 0), nil)
+		}
 		close(stop)
-		tw.gate.ReleaseAll()
-		reportSQL(rep, tw)
-		tw.store.shut()
-		rep.Eval(fmt.Sprintf("round-%d", r))
+		stop = make(chan struct{})
+		if err := pr.restart(); err != nil {
+			t.Fatal(err)
+		}
+		ungate(stop)
+		served := map[string]bool{}
+		for _, name := range pr.names {
+			tw := pr.logs[name]
+			n := tw.x.Env.Backend.Size()
+			for i := 0; i < n; i++ {
+				for _, via := range []string{"entries", "proof"} {
+					c, leaf, extra, e := readEntryCtx(context.Background(), tw, via, i, n)
+					if e != nil || c != 200 {
+						viol("cold-unserved:"+via, fmt.Sprintf("after a restart (cold caches) index %d of log %s is answered %d %v: the entry was acknowledged, sequenced and is not served", i, name, c, e))
+					} else if w, ok := want[string(leaf)]; !ok || !bytes.Equal(w, extra) {
+						viol("cold-differs:"+via, fmt.Sprintf("after a restart index %d of log %s is served with other bytes than the direct mode", i, name))
+					} else {
+						served[string(extra)] = true
+					}
+				}
+			}
+		}
+		close(stop)
+		pr.shut(rep)
+		key := ""
+		if len(served) >= 3 {
+			key = fmt.Sprintf("round-%d", r)
+		}
+		rep.Eval(key)
 	}
 	rep.Replayed = rounds
 	if err := rep.Write(); err != nil {
@@ -1160,23 +1870,55 @@ func TestChainStoreConcurrent(t *testing.T) {
 	}
 }
 
+func sameEntries(a, b []ct.LeafEntry) bool {
+	if len(a) != len(b) {
+		return false
+	}
+	for i := range a {
+		if !bytes.Equal(a[i].LeafInput, b[i].LeafInput) || !bytes.Equal(a[i].ExtraData, b[i].ExtraData) {
+			return false
+		}
+	}
+	return true
+}
+
 // TestChainStoreBackendFaults: with external chain storage the read endpoints post-process the
 // backend's reply (FixLogLeaf) before the handler's own sanity checks; absent parts of a reply must
 // still give an error status, never a crash (C08 matrix rows for the external-storage mode, C14).
+// get-entries pages: exactly one leaf of the page (first / middle / last) cannot be fixed up - garbled by the backend
+// (GarbleClasses), its chain missing from the storage, its row damaged - under every completion order of the per-leaf
+// work (Orders, as latencies of the storage lookups): 5xx, never 200.
 func TestChainStoreBackendFaults(t *testing.T) {
-	rep := vh.NewReport("cctfe-chainstore-backendfaults", "external-storage instance: get-entry-and-proof / get-entries with backend replies lacking the leaf, the proof or the root; non-trivial = each fault class executed")
-	tw, err := newTwin(t.TempDir(), 2, 77, 0, "memory")
+	rep := vh.NewReport("cctfe-chainstore-backendfaults", "external-storage instance: get-entry-and-proof / get-entries with backend replies lacking the leaf, the proof or the root; get-entries pages of three leaves with three different chains where exactly one leaf (first / middle / last) cannot be fixed up (five garble classes, missing row, damaged row) x four completion orders of the per-leaf work; non-trivial = each fault class executed")
+	tw, pr, err := newTwin(t.TempDir(), 2, 77, 0, "memory")
 	if err != nil {
 		t.Fatal(err)
 	}
-	defer tw.gate.ReleaseAll()
-	for _, id := range []string{"x1", "p1", "x3"} {
+	defer pr.shut(nil)
+	page := []string{"x1", "p1", "x3"} // three leaves, three different chains
+	for _, id := range page {
 		s := tw.x.Subs[id]
-		if c, _, b, e := tw.x.Env.AddChain(s.Chain, s.Pre); e != nil || c != 200 {
-			t.Fatalf("submit: %d %v %s", c, e, b)
+		if c, b, e := addChainCtx(context.Background(), tw, s.Chain, s.Pre); e != nil || c != 200 {
+			rep.Violate("chainstore:backendfault:submit", fmt.Sprintf("external-storage instance did not accept %s: %d %v %.200s", id, c, e, b), nil)
+			rep.Eval("")
+			if err := rep.Write(); err != nil {
+				t.Fatal(err)
+			}
+			return
 		}
 	}
 	tw.x.Env.Backend.Sequence(3, tw.x.Nanos(1, 0), nil)
+	if adds := tw.rec.since(0, "add"); len(adds) == len(page) {
+		for i, id := range page {
+			tw.keys[chainOf[id]] = adds[i].key
+		}
+	} else {
+		rep.Violate("chainstore:backendfault:submit:add-calls", fmt.Sprintf("three submissions of three different chains to a cold external-storage instance called storage.Add %d times", len(adds)), nil)
+		if err := rep.Write(); err != nil {
+			t.Fatal(err)
+		}
+		return
+	}
 	faults := map[string]func(m proto.Message){
 		"nilLeaf":   func(m proto.Message) { m.(*trillian.GetEntryAndProofResponse).Leaf = nil },
 		"nilProof":  func(m proto.Message) { m.(*trillian.GetEntryAndProofResponse).Proof = nil },
@@ -1190,7 +1932,7 @@ func TestChainStoreBackendFaults(t *testing.T) {
 			}
 			return rsp, err
 		}
-		code, body, _, err := tw.x.Env.Do("GET", ct.GetEntryAndProofPath, q("leaf_index", 1, "tree_size", 3), nil)
+		code, body, err := doCtx(context.Background(), tw.x.Env, tw.gate, "GET", ct.GetEntryAndProofPath, q("leaf_index", 1, "tree_size", 3), nil)
 		if err != nil {
 			rep.Violate("chainstore:backendfault:"+name+":panic", "get-entry-and-proof with external chain storage: "+err.Error(), nil)
 		} else if code == 200 {
@@ -1198,28 +1940,72 @@ func TestChainStoreBackendFaults(t *testing.T) {
 		}
 		rep.Eval("entry-and-proof/" + name)
 	}
-	for name, f := range map[string]func(r *trillian.GetLeavesByRangeResponse){
-		"emptyLeafStruct": func(r *trillian.GetLeavesByRangeResponse) {
-			r.Leaves[0] = &trillian.LogLeaf{LeafIndex: r.Leaves[0].LeafIndex}
-		},
-		"noExtraData": func(r *trillian.GetLeavesByRangeResponse) { r.Leaves[0].ExtraData = nil },
-	} {
-		tw.x.Env.Backend.Intercept = func(seq int, method string, req, rsp proto.Message, err error) (proto.Message, error) {
-			if method == "GetLeavesByRange" && rsp != nil {
-				f(rsp.(*trillian.GetLeavesByRangeResponse))
-			}
-			return rsp, err
-		}
-		code, body, _, err := tw.x.Env.Do("GET", ct.GetEntriesPath, q("start", 0, "end", 1), nil)
-		if err != nil {
-			rep.Violate("chainstore:backendfault:"+name+":panic", "get-entries with external chain storage: "+err.Error(), nil)
-		} else if code == 200 {
-			rep.Violate("chainstore:backendfault:"+name+":200", fmt.Sprintf("get-entries answered 200 to a backend leaf with %s: %.80s", name, body), nil)
-		}
-		rep.Eval("entries/" + name)
-	}
 	tw.x.Env.Backend.Intercept = nil
-	rep.Replayed = 6
+	// what the intact page serves (three lookups; their detached cache writes stay at the gate)
+	codeG, good, errG := readRange(context.Background(), tw.x, tw, 0, 2)
+	if errG != nil || codeG != 200 || len(good) != 3 {
+		rep.Violate("chainstore:backendfault:page:untouched", fmt.Sprintf("get-entries(0,2) of an intact page answered %d with %d entries %v", codeG, len(good), errG), nil)
+		if err := rep.Write(); err != nil {
+			t.Fatal(err)
+		}
+		return
+	}
+	n := 0
+	classes := []string{"garbageExtra", "truncatedHash", "noExtraData", "emptyLeaf", "unknownHash", "missingRow", "damagedRow"}
+	for _, class := range classes {
+		for pos := 0; pos < 3; pos++ {
+			for _, order := range []string{"asc", "desc", "failFast", "failSlow"} {
+				n++
+				chain := chainOf[page[pos]]
+				key := tw.keys[chain]
+				orig, _ := tw.store.row(key)
+				switch class {
+				case "missingRow":
+					tw.store.dropRow(key)
+				case "damagedRow":
+					tw.store.setRow(key, damaged(orig, []string{"trailing", "notDER", "truncated", "empty"}[n%4], nil))
+				default:
+					tw.x.Env.Backend.Intercept = func(seq int, method string, req, rsp proto.Message, err error) (proto.Message, error) {
+						if r, ok := rsp.(*trillian.GetLeavesByRangeResponse); ok && method == "GetLeavesByRange" && err == nil && len(r.Leaves) > pos {
+							r.Leaves[pos] = garbleLeaf(r.Leaves[pos], class, n)
+						}
+						return rsp, err
+					}
+				}
+				rank := map[string]int{}
+				for i, id := range page {
+					rank[string(tw.keys[chainOf[id]])] = i
+				}
+				tw.rec.setDelay(pageDelays(order, rank, 3))
+				code, ents, err := readRange(context.Background(), tw.x, tw, 0, 2)
+				tw.rec.setDelay(nil)
+				tw.x.Env.Backend.Intercept = nil
+				tw.store.setRow(key, orig)
+				at := []string{"first", "middle", "last"}[pos]
+				switch {
+				case err != nil && code == 0:
+					rep.Violate(fmt.Sprintf("chainstore:backendfault:page:%s:%s:panic", class, at), "get-entries with external chain storage: "+err.Error(), nil)
+				case code == 200 && (class == "missingRow" || class == "damagedRow") && sameEntries(ents, good):
+					// served whole and right: the chain came from a cache that (unlike the gated one of this harness'
+					// model) already held it - no fault of the page; the case is not counted
+					rep.Add("page_cases_served_from_a_warm_cache", 1)
+					continue
+				case code == 200:
+					rep.Violate(fmt.Sprintf("chainstore:backendfault:page:%s:%s:200", class, at), fmt.Sprintf("get-entries(0,2) with external chain storage: the %s leaf of the page cannot be fixed up (%s), yet the page was answered 200 with %d entries (completion order of the per-leaf work: %s)", at, class, len(ents), order), nil)
+				case code < 500:
+					rep.Violate(fmt.Sprintf("chainstore:backendfault:page:%s:%s:got%d", class, at, code), fmt.Sprintf("get-entries(0,2): a leaf that cannot be fixed up (%s) answered %d, expected 5xx", class, code), nil)
+				}
+				rep.Eval(fmt.Sprintf("entries/%s/%s/%s", class, at, order))
+				// (the detached writes of the lookups that succeeded stay at the gate: every case meets a cold cache, so the
+				// missing / damaged row is what the page depends on)
+			}
+		}
+	}
+	// the untouched page is served (the cases above left nothing behind)
+	if code, ents, err := readRange(context.Background(), tw.x, tw, 0, 2); err != nil || code != 200 || len(ents) != 3 {
+		rep.Violate("chainstore:backendfault:page:untouched", fmt.Sprintf("get-entries(0,2) of an intact page answered %d with %d entries %v", code, len(ents), err), nil)
+	}
+	rep.Replayed = 4 + n
 	if err := rep.Write(); err != nil {
 		t.Fatal(err)
 	}
